@@ -209,7 +209,16 @@ def run_load(tree, sc, loader=None, meta=None):
     fi = tree.func(LOAD)
     ev = ModelEval(tree, fi, {}, hooks)
     ev.MAX_STEPS = 10 ** 7
+
+    def snap(x):
+        if isinstance(x, dict):
+            return ("dict", tuple((k, snap(v)) for k, v in x.items()))
+        if isinstance(x, (list, tuple)):
+            return (type(x).__name__, tuple(snap(v) for v in x))
+        return x if isinstance(x, (str, int, float, bool, type(None))) else ("object", id(x))
+    before = {k: snap(sc[k]) for k in ("select", "cpu_list", "sortby")}
     out = ev.invoke(fi, [loader], {"select": sc["select"], "cpu_list": sc["cpu_list"], "sortby": sc["sortby"], "meta": sc["meta"], "units": "UNITS"}, None)
+    sc["arguments_changed"] = [k for k in before if snap(sc[k]) != before[k]]
     return loader, out
 
 
@@ -288,6 +297,8 @@ SCENARIOS = [
      dict(active=["amr", "hydro", "part"], cpus=[1, 2], lmax=3, select=lambda kind: kind in ("mesh", "sink"))),
     ("a block with no selected cell; sorting requested", dict(ncells=lambda cpu, il: 0 if (cpu, il) == (2, 2) else 3, sortby={"mesh": "level", "absent": "x"}),
      dict(active=["amr", "hydro", "part"], cpus=[1, 2], lmax=3, select=lambda kind: {})),
+    ("variable lists per group (one name that no reader provides)", dict(select={"mesh": ["density", "level", "no_such_variable"], "part": ["mass"]}),
+     dict(active=["amr", "hydro", "part"], cpus=[1, 2], lmax=3, select=lambda kind: {"mesh": ["density", "level", "no_such_variable"], "part": ["mass"]}.get(kind, {}))),
 ]
 
 
@@ -296,6 +307,8 @@ def check_scenario(sc, exp, loader, out, kinds):
     tr = sc["trace"]
     problems = []
     two = 2 ** sc["ndim"]
+    if sc.get("arguments_changed"):
+        problems.append(("arguments", "load() modified the caller's %s (a select reused for the next output - a loop over snapshots - no longer asks for the same thing)" % ", ".join(sc["arguments_changed"])))
     # ---- initialisation
     inits = [e for e in tr if e[0] == "initialize"]
     if [e[1] for e in inits] != list(kinds):
